@@ -256,7 +256,9 @@ def _fread_sites(prog):
             if len(args) < 4:
                 continue
             size, count = args[1], args[2]
-            want = count if folded(size) == 1 else (size if folded(count) == 1 else None)
+            # fread(buf, 1, n, f): the result counts bytes.  The transposed form fread(buf, n, 1, f) returns 0 both for
+            # a short read and for n == 0 (an empty line body), so it cannot be tested correctly
+            want = count if folded(size) == 1 else None
             var = None
             p = fn.parent(n)
             while p is not None and p.get("k") in ("ImplicitCastExpr", "ParenExpr", "CStyleCastExpr"):
@@ -306,7 +308,9 @@ def rule_short_fread(prog, fixture=False):
         cfg = fn.cfg
         key = "%s::%s::fread(%s)" % (fn.relfile(), fn.qn, show(bufexpr))
         if want is None:
-            r.add(key, fn.loc(call), False, "fread's element size/count are not `1, length`: a short read cannot be told apart")
+            r.add(key, fn.loc(call), False, "fread's element size/count are not `1, length`: with the length as element size "
+                  "the result is 0 for a short read *and* for a zero-length body (a line without tokens), so a "
+                  "well-formed empty line is reported as premature end of file")
             continue
         br = _short_read_branch(fn, call, var, want)
         if br is None:
